@@ -712,7 +712,17 @@ def check_segment(seg, meta, st, fails, line, xc=None):
             if o == DEFAULT_OPTS:
                 st.inc("helix_cases_tiny_radius_default_options")
             st.max("max_helix_residual_over_tol_tiny_radius", resid / tol)
-        if resid > tol:
+        if resid > tol and rad < min_sub:
+            # gyroradius BELOW minimum_step: the driver floors its integration steps at
+            # minimum_step ("quick advance", no error control), the gyration cannot be resolved
+            st.inc("helix_failures_gyroradius_below_minimum_step")
+            fails.append(("helix-gyroradius-below-minimum-step",
+                          "gyroradius below minimum_step (validated options): integration steps are "
+                          "floored at minimum_step without error control and the end point leaves "
+                          "the analytic helix by more than the configured tolerances",
+                          {"residual": resid, "tol": tol, "distance": distance, "radius": rad,
+                           "minimum_step": min_sub, "end": fin[0][:3], "helix": pt}))
+        elif resid > tol:
             fails.append(("oracle:helix-residual", "end point farther from the analytic helix than "
                           "the configured chord/intersection/integration tolerances allow",
                           {"residual": resid, "tol": tol, "distance": distance, "radius": rad,
